@@ -3,6 +3,7 @@ package keys
 import (
 	"encoding/base64"
 	"encoding/binary"
+	"strings"
 
 	"pgregory.net/rapid"
 
@@ -39,6 +40,9 @@ func drawKID(t *rapid.T, label string) (kidSpec, string, uint32) {
 			k.customKID = rapid.StringMatching(`[A-Za-z0-9_.\-]{1,20}`).Draw(t, label+"_custom_kid")
 		default:
 			k.customKID = rapid.StringN(1, 12, 48).Draw(t, label+"_custom_kid")
+		}
+		if rapid.IntRange(0, 39).Draw(t, label+"_custom_kid_ceiling") == 0 { // a kid of HugeKIDSize characters
+			k.customKID = strings.Repeat(rapid.StringMatching(`[A-Za-z0-9_.\-]{8}`).Draw(t, label+"_custom_kid_unit"), HugeKIDSize/8)
 		}
 	}
 	if k.strategy == KIDBase64 {
@@ -97,7 +101,7 @@ func drawJwtHmac(t *rapid.T, label string, _ bool) (builder, string, uint32) {
 	var s jwtHmacSpec
 	s.alg = rapid.SampledFrom([]string{"HS256", "HS384", "HS512"}).Draw(t, label+"_algorithm")
 	min := map[string]int{"HS256": 32, "HS384": 48, "HS512": 64}[s.alg]
-	s.keySize = pick(t, label+"_key_size", 50, within(append([]int{min, min + 1}, hmacKeySizes...), min, 136), min, 136)
+	s.keySize = ceiling(t, label+"_key_size", pick(t, label+"_key_size", 50, within(append([]int{min, min + 1}, hmacKeySizes...), min, 136), min, 136), HugeKeySize)
 	var v string
 	var id uint32
 	s.kid, v, id = drawKID(t, label)
